@@ -97,6 +97,7 @@ func cmdNetLocal(args []string) {
 	res := &Result{}
 	defer res.write(*out)
 	col := trace.Install()
+	installPerturbation(*seed, 8, 300*time.Microsecond)
 
 	segs := make([]*nlSegment, *segments)
 	sem := make(chan struct{}, *par)
@@ -166,7 +167,12 @@ func copyConns(m map[string]float64) map[string]float64 {
 
 func runNLSegment(col *trace.Collector, rng *rand.Rand, steps int, idx int) *nlSegment {
 	seg := &nlSegment{}
-	n, err := e1.NewNode(nlSelf, e1.Opts{})
+	opts := e1.Opts{}
+	expiring := idx%3 == 2 // every third segment: ids age out of the seen table quickly
+	if expiring {
+		opts.SeenExpire = 200 * time.Millisecond
+	}
+	n, err := e1.NewNode(nlSelf, opts)
 	if err != nil {
 		seg.inconcl = err.Error()
 
@@ -387,6 +393,19 @@ func runNLSegment(col *trace.Collector, rng *rand.Rand, steps int, idx int) *nlS
 		l := live()
 		if len(l) == 0 {
 			break
+		}
+		if expiring && rng.Intn(4) == 0 {
+			// wait until every id has aged out, then go on (replays of already relayed updates follow)
+			dl := time.Now().Add(30 * time.Second)
+			for n.N.VerifSnapshot().SeenCount > 0 {
+				if time.Now().After(dl) {
+					seg.inconcl = "seen table did not expire"
+
+					return seg
+				}
+				time.Sleep(20 * time.Millisecond)
+			}
+			seg.lines = append(seg.lines, nlLine{Ev: "expire"})
 		}
 		via := l[rng.Intn(len(l))]
 		u := nlUpdate{Fwd: via, ID: freshID(), Epoch: int64(1 + rng.Intn(2)), Seq: int64(1 + rng.Intn(3)), Conns: copyConns(nlConnPool[rng.Intn(len(nlConnPool))])}
